@@ -615,6 +615,29 @@ package dns
 //@ }
 
 // ===================================================================================================
+// C17: a DNS tunnel connection hands out data and end-of-stream separately: end-of-stream only when nothing is
+// buffered any more, never together with data (a reader that stops at end-of-stream, such as io.Copy, would
+// otherwise lose what the peer wrote before it closed and what is still waiting in the buffer)
+//@ iface (github.com/bokysan/socketace/v2/internal/streams/dns.ClientCommunicator).Closed (c ClientCommunicator) (result bool)
+//@   pure
+//@ func (dc *ClientDnsConnection) Closed
+//@   property C17
+//@   pure
+//@   requires dc.Communicator != nil
+//@ func (u *userConnection) Read
+//@   property C17
+//@   safe
+//@   requires util.InReadable(&u.in, b)
+//@   ensures n > 0 ==> err == nil                                                          :data_is_never_handed_out_together_with_end_of_stream
+//@   ensures err != nil ==> n == 0                                                         :an_error_reads_nothing
+//@ func (dc *ClientDnsConnection) Read
+//@   property C17
+//@   safe
+//@   requires util.InReadable(&dc.in, b) && dc.Communicator != nil
+//@   ensures n > 0 ==> err == nil                                                          :data_is_never_handed_out_together_with_end_of_stream
+//@   ensures err != nil ==> n == 0                                                         :an_error_reads_nothing
+
+// ===================================================================================================
 // C11: the whole negotiation over simulated DNS paths (real wire encoding both ways; record types not answered,
 // case folding, 7-bit names, answer size limits): the handshake ends, and if it reports success several
 // fragments of data arrive unchanged in both directions over the same path.  Bounded: one run per path.
